@@ -71,7 +71,7 @@ func (c *Ctx) lockHeaps(fam string) (w, r string) {
 }
 
 // lockOp updates the lock-set for a call of a sync.Mutex / sync.RWMutex method.
-func (fr *Frame) lockOp(method string, recv Val, st *State) {
+func (fr *Frame) lockOp(method string, recv Val, st *State, g *Term, site ssa.Instruction) {
 	c := fr.c
 	if !c.lockCheck {
 		return
@@ -83,6 +83,44 @@ func (fr *Frame) lockOp(method string, recv Val, st *State) {
 	}
 	w, r := c.lockHeaps(fam)
 	set := func(h string, v *Term) { c.heapSet(st, h, tStore(c.heapGet(st, h), idx, v)) }
+	// acquired-on-this-path: starts empty at the entry of the unit (a definition, not an assumption about callers)
+	acq := c.heapName("lock!a!"+fam, ArrSort(SInt, SBool))
+	a0 := sanitize(acq) + "@0"
+	if !c.acqInit[a0] {
+		if c.acqInit == nil {
+			c.acqInit = map[string]bool{}
+		}
+		c.acqInit[a0] = true
+		c.declare(a0, ArrSort(SInt, SBool))
+		c.asserts = append(c.asserts, &Assertion{Seq: 0, Always: true, Text: fmt.Sprintf("(= %s ((as const (Array Int Bool)) false))", a0)})
+	}
+	switch method {
+	case "Lock", "RLock":
+		defer set(acq, tTrue)
+	case "Unlock", "RUnlock":
+		defer set(acq, tFalse)
+	}
+	synKey := "syn|" + fam + "|" + idx.S
+	seenBefore := c.acqInit[synKey]
+	if method == "Lock" || method == "RLock" {
+		c.acqInit[synKey] = true
+	}
+	// (only when the very same mutex term has been acquired before in this unit: two different fields of one object, or
+	// two objects the solver cannot tell apart, are not reported as re-entrant on the strength of "may alias")
+	if (method == "Lock" || method == "RLock") && g != nil && seenBefore {
+		// sync mutexes are not re-entrant: acquiring one that this path already holds (read or write) blocks for ever
+		// once a writer is waiting (RLock inside RLock) or at once (Lock inside anything). "Already holds" is decidable
+		// only for acquisitions made on this path: at entry a unit is assumed to hold nothing but its #lockpre locks.
+		n := c.nguard
+		c.nguard++
+		pos := ""
+		if site != nil {
+			pos = c.posOf(site.Pos())
+		}
+		c.oblige(&Obligation{Name: fmt.Sprintf("%s/guard#reentrant.%d", c.unitName, n), Func: c.unitName, Kind: "guard",
+			Guard: g, Goal: tNot(tSelect(c.heapGet(st, acq), idx)), Pos: pos,
+			Src: "the mutex being acquired (" + method + ") is not already held on this path", Tags: map[string]bool{"C25": true}})
+	}
 	switch method {
 	case "Lock":
 		set(w, tTrue)
@@ -235,6 +273,15 @@ func (p *Program) touchesGuarded(fn *ssa.Function) bool {
 			if fa, ok := ins.(*ssa.FieldAddr); ok {
 				if pt, ok := fa.X.Type().Underlying().(*types.Pointer); ok && p.guardDecl(pt.Elem(), fa.Field) != nil {
 					return true
+				}
+			}
+			// a function that acquires a mutex itself is swept too (re-entrant acquisition through inlined callees)
+			if call, ok := ins.(ssa.CallInstruction); ok {
+				if callee := call.Common().StaticCallee(); callee != nil {
+					switch callee.String() {
+					case "(*sync.Mutex).Lock", "(*sync.RWMutex).Lock", "(*sync.RWMutex).RLock":
+						return true
+					}
 				}
 			}
 		}
